@@ -6,6 +6,7 @@ mod s_bloom;
 mod s_cms;
 mod s_filter;
 mod s_heap;
+mod s_hser;
 mod s_hll;
 mod s_lossy;
 mod s_res;
@@ -72,7 +73,8 @@ fn make_driver(st: &str, cfg: &HashMap<String, String>) -> Box<dyn Driver> {
             "u64" => Box::new(s_cms::D::<u64>::default()),
             _ => Box::new(s_cms::D::<usize>::default()),
         },
-        "hll" => Box::new(s_hll::D::default()),
+        "hll" | "hllc" => Box::new(s_hll::D::default()),
+        "hser" => Box::new(s_hser::D::default()),
         "cuckoo" => Box::new(s_filter::D::<s_filter::Cuckoo>::default()),
         "qf" => Box::new(s_filter::D::<s_filter::Quot>::default()),
         "res" => Box::new(s_res::D::default()),
